@@ -7,7 +7,7 @@ import json
 import os
 import random
 
-from . import core, suite, fncases
+from . import core, suite, fncases, values
 from .values import enc
 
 
@@ -32,6 +32,15 @@ def rand_case(rng):
     if f == 'NOT':
         return {'f': f, 'args': [rng.choice([enc(True), enc(False), enc(0), enc(2), enc(-0.5), {'t': 'blank'}, enc(1e-16), enc(-5e-324)])]}
     if f in ('ISEVEN', 'ISODD'):
+        if rng.random() < 0.3:
+            # floats a unit in the last place off a whole number: the integer part is the one below (toward zero)
+            import math
+            w = rng.choice([1, 2, 3, 7, 8, 10, 435, 1000, rng.randint(1, 99999)])
+            x = math.nextafter(float(w), rng.choice([0.0, 1e9])) * rng.choice([1, -1])
+            x = rng.choice([x, (0.7 + 0.1) * 10, 4.35 * 100, 0.1 * 3 * 10, -(0.7 + 0.1) * 10])
+            v = values.flt_exact(x)
+            v['ip'] = int(abs(x))
+            return {'f': f, 'args': [v]}
         return {'f': f, 'args': [enc(rng.choice([rng.randint(-50, 50), rng.randint(-50, 50) + 0.5, -0.5, 0.25, 1e6 + 1]))]}
     conds = [enc(True), enc(False), enc(0), enc(2), {'t': 'blank'}, {'t': 'err', 'c': rng.choice(['#N/A', '#DIV/0!', '#NUM!'])},
              enc(rng.choice([1e-16, 1e-300, 0.1 + 0.2 - 0.3])), enc(0.0)]
